@@ -1734,7 +1734,9 @@ class Data(BaseCartesianData):
 
         chunk_view = None
         if subset_state:
-            if isinstance(subset_state, SliceSubsetState) and view is None:
+            if isinstance(subset_state, SliceSubsetState) and view is None and axis is None:
+                # Shortcut (only valid when no axis is given, since otherwise
+                # the result needs to have the shape of the full dataset)
                 mask = None
                 data = subset_state.to_array(self, cid)
             else:
